@@ -157,6 +157,12 @@ def handle (j : Json) : Json :=
       Json.mkObj [("wf", wf), ("res", resJson names r1.2), ("res2", resJson names r2.2),
                   ("defaults", defaultsJson r1.1), ("defaults2", defaultsJson r2.1)]
     | "pipeline" =>
+      if jhas j "late" then
+        -- "late": options whose choices are attached after overwrite_defaults (`backend`), validated afterwards
+        let r := pipelineLate (jbool j "pinned") spec ((jstrs j "late").map s2l) ini dodo env argv
+        Json.mkObj [("wf", wf), ("res", resJson names r),
+                    ("exit", toJson (match r with | .ok _ => (0 : Nat) | .error _ => 3))]
+      else
       Json.mkObj [("wf", wf), ("res", resJson names (pipeline spec ini dodo env argv)),
                   ("exit", toJson (runMain (jbool j "pinned") spec ini dodo env argv).kind)]
     | "prepipeline" =>
